@@ -394,6 +394,7 @@ def run(eng: Engine, ck: Check):
     from . import defs as _d13
     _d13.presence_truthiness(eng, ck, 'R-C13-PARENT', [('DistributedPeer', DIST), ('PeerConnection', CONN)], '`if self.parent`, `if not peer.connection` decide whether there is a parent / a live connection')
     _d13.identity_semantics(eng, ck, 'R-C13-ADMIT', [('PeerConnection', CONN)], 'get_distributed_peer and the child list compare connections; two connections of one user are different connections')
+    _d13.on_message_registers(eng, ck, 'R-C13-ADVERT', 'branch level / root announcements and child admission arrive through @on_message handlers')
     announced_values_rule(eng, ck)
 
 
